@@ -161,7 +161,7 @@ class Frame:
 
 
 class State:
-    __slots__ = ('events', 'frames', 'heap', 'preds', 'epoch', 'recv_epoch')
+    __slots__ = ('events', 'frames', 'heap', 'preds', 'epoch', 'recv_epoch', 'alias')
 
     def __init__(self):
         self.events: List[Event] = []
@@ -170,6 +170,7 @@ class State:
         self.preds: Dict[Tuple, bool] = {}
         self.epoch = 0
         self.recv_epoch: Dict[Tuple, int] = {}
+        self.alias: Dict[Tuple, str] = {}  # allocation-site term -> attribute name it was stored to
 
     def fork(self) -> 'State':
         s = State()
@@ -179,6 +180,7 @@ class State:
         s.preds = dict(self.preds)
         s.epoch = self.epoch
         s.recv_epoch = dict(self.recv_epoch)
+        s.alias = dict(self.alias)
         return s
 
     @property
@@ -716,6 +718,8 @@ class Interp:
                 raise AnalysisError('branching store target at %s:%s' % (st.frame.func.file, stmt.lineno))
             _, base, _ = for_s[0]
             st.heap[(base.term, target.attr)] = v
+            if v.term[0] == 'new':
+                st.alias[v.term] = target.attr
             st.emit('store', stmt, target=('attr', base.term, target.attr), value=v, tnode=target, base=base,
                     aug=aug)
         elif isinstance(target, ast.Subscript):
@@ -1642,7 +1646,8 @@ class Interp:
                     value = AVal(('call', name, tuple(a.term for a in pos) + tuple(
                         ('kw', k, v.term) for k, v in sorted(kw.items())), next(self._site)), rt, False, awt)
             ev = st.emit('call', e, name=name, how=how, recv=recv, args=pos, kwargs=kw, targets=funcs,
-                         value=value, callee=callee, awaited=awaited)
+                         value=value, callee=callee, awaited=awaited,
+                         recv_alias=st.alias.get(recv.term) if recv is not None else None)
             if name in ('add_done_callback', 'call_soon', 'call_later') and pos:
                 ev.data['callback_paths'] = self._probe_callback(pos[-1] if name != 'call_later' else pos[1], e, st)
             self.stats[how if how in self.stats else 'unknown'] = self.stats.get(how, 0) + 1
